@@ -632,6 +632,8 @@ class Interp(object):
             return self.run_function(fn.node, fn.frame.module, args, kwargs, parent=fn.frame)
         if isinstance(fn, FuncRef):
             if fn.is_spec:
+                if any(isinstance(d, ast.Name) and d.id == 'inductive' for d in getattr(fn.node, 'decorator_list', ())):
+                    return self.world.call_inductive(self, fn, args, kwargs)
                 return self.run_function(fn.node, fn.module, args, kwargs, func=fn)
             return self.world.call_by_contract(self, fn, args, kwargs)
         if isinstance(fn, BoundMethod):
